@@ -36,10 +36,17 @@ def top5_scenarios(rng, n):
         nn = rng.randint(6, 14)
         op = {'op': rng.choice(['map', 'map_unordered', 'imap', 'imap_unordered']), 'n': nn, 'chunk_size': 1, 'elem': 'scalar',
               'dur': {'kind': 'map', 'map': {str(i): round(0.01 * (i + 1), 4) for i in range(nn)}, 'default': 0.01}}
-        if rng.random() < .6:
+        pool = {'n_jobs': nj, 'start_method': rng.choice(['fork', 'threading']), 'enable_insights': True}
+        r = rng.random()
+        if r < .45:
             op['worker_lifespan'] = rng.choice([1, 2, 3])
-        scs.append({'seed': rng.randint(0, 10 ** 6), 'pool': {'n_jobs': nj, 'start_method': rng.choice(['fork', 'threading']), 'enable_insights': True},
-                    'ops': [op], 'top5': True})
+        elif r < .8:
+            pool['keep_alive'] = True       # the workers only pause: what they publish has to be there when the call returns
+        sc = {'seed': rng.randint(0, 10 ** 6), 'pool': pool, 'ops': [op], 'top5': True}
+        if pool.get('keep_alive') and rng.random() < .6:
+            # … also when a worker is slow right after it acknowledged the end of the call
+            sc['rules'] = [{'role': 'Worker-%d' % rng.randrange(nj), 'op': 'q.task_done+', 'obj': None, 'sleep': rng.choice([0.05, 0.3]), 'p': 1.0}]
+        scs.append(sc)
     return scs
 
 
